@@ -105,6 +105,7 @@ def inrepo(mutdir, tier, ids):
 
 
 def main(argv):
+    argv = [os.path.abspath(a) if os.path.isdir(a) else a for a in argv]
     if argv[0] == "verify":
         r = verify(argv[1], argv[2])
     elif argv[0] == "detect":
